@@ -1947,7 +1947,7 @@ RULES = [
     ('C20.unbound', 'no local is read after a swallowing try that may not have assigned it', 1),
     ('C20.span', 'the reported start is the match position', 1),
     ('C20.is-emoji', 'the tokenizer\'s emoji classifier accepts every listed single-code-point emoji and no plain character', 2),
-    ('C20.scoring', 'extract as written keeps (and reports) a contiguous listed expression on every tabulated token configuration', 2),
+    ('C20.scoring', 'extract as written keeps (and reports) a contiguous listed expression on every tabulated token configuration', 1),
 ]
 
 
@@ -2143,7 +2143,7 @@ def analyse_registration(idx, R, E, ev, r, done, tab=None):
     pol, is_sep, ttree = analyse_words(idx, E, r, vals, wired, info['matching'], lowered)
 
     # ---- is_emoji on the listed code points; extract interpreted as written on token configurations
-    analyse_tabulation(idx, E, r, xk, pol, is_sep, ttree, emap, stores, wired, tab)
+    analyse_tabulation(idx, E, r, xk, pol, is_sep, ttree, emap, stores, wired, tab, all(f[0] for f in findings))
 
 
 # =====================================================================================================
@@ -2652,7 +2652,7 @@ def analyse_words(idx, E, r, vals, wired, matching, lowered):
     return pol, is_sep, ttree
 
 
-def analyse_tabulation(idx, E, r, xk, pol, is_sep, ttree, emap, stores, wired, tab):
+def analyse_tabulation(idx, E, r, xk, pol, is_sep, ttree, emap, stores, wired, tab, typing_ok=True):
     usable = len(pol) == 2 and not any(A['compile'] for A in pol.values())
     # ---- is_emoji decided on every listed single-code-point emoji
     ucls, efn, tk, tfn = is_emoji_function(idx, xk)
@@ -2683,10 +2683,12 @@ def analyse_tabulation(idx, E, r, xk, pol, is_sep, ttree, emap, stores, wired, t
             'letters, digits, blank and punctuation classified as emoji: %s' % [repr(c_) for c_ in plain],
             'ordinary characters are classified as emoji: every letter becomes a token of its own and no word matches',
             efn.lineno if efn is not None else tfn.lineno)
-    if tab is None or not usable:
+    if tab is None or not usable or not typing_ok:
         if tab is not None:
             E.exempt('C20.scoring', xk.mod.path, '%s %s.extract' % (r.construct, xk.name),
-                     'not decidable: a matched pattern is malformed (reported under C20.rewrite)', 'languages not available', None)
+                     'not decidable: %s' % ('a matched pattern is malformed (reported under C20.rewrite)' if not usable else
+                                            'the match loop does not pair pattern and type (reported under C20.typing)'),
+                     'tabulation not run', None)
         return
     # ---- extract, as written, on token configurations
     types = {}
